@@ -1,12 +1,26 @@
 (** * C06 - alternative spellings compile identically; everything writable is recovered verbatim.
-    Property theorems only; the model is Model/Parser.v (+ Model/Printer.v), proofs are in Proofs/Parser*.v. *)
-From Coq Require Import List ZArith NArith Bool String.
-From RG Require Import Base.Str Base.Num Model.Recipe Model.Compiler Model.Peg Model.Parser Gen.GenGrammar.
-Import ListNotations.
+    Property theorems only; the model is Model/Parser.v (the grammar interpreter) and Model/Printer.v
+    (printing under explicit spelling choices); proofs are in Proofs/Parser*.v.
 
-(** ** Pins: the interpreter [Model/Parser.v] was written for exactly the grammar,
-    escape table, transformer methods and integer-text limit of the checkout under test.
-    [GenGrammar] is regenerated from the LIVE compiled grammar object on every run. *)
+    Reading guide.  [Parser.parse : str -> poutcome] models recipe_grid.parser.parse followed by
+    compile_string on every name (AST with offsets).  The lexical theorems below are UNBOUNDED: they hold for
+    every string, every spelling vector, every number layout.  Notation of the statements:
+    [print_quoted q ms x] = the string [x] between quote characters [q], its k-th character written as the
+    k-th mode of [ms] asks (raw, backslash + itself, backslash + escape letter) whenever that is permitted;
+    [ntext] = a number literal layout (leading zeros, decimal, "n/ d", "i n / d" with arbitrary horizontal
+    space); [bpart] = a text part or a number inside a brace group. *)
+From Coq Require Import List ZArith NArith Bool String.
+From RG Require Import Base.Str Base.Dec Base.Num Model.Recipe Model.Compiler Model.Peg Model.Parser Model.Printer
+  Gen.GenGrammar Proofs.ParserLex.
+Import ListNotations.
+Open Scope list_scope.
+Open Scope N_scope.
+
+(** ** Pins: the interpreter [Model/Parser.v] was written for exactly the grammar, escape table,
+    transformer methods and integer-text limit of the checkout under test.  [GenGrammar] is regenerated
+    from the LIVE compiled grammar object on every run (every rule, every regex leaf with its compile
+    flags; the unit alternation of [known_unit] is re-rendered from Gen/GenUnits.v inside
+    [Parser.modelled_rules]), so any edit of grammar.peg / ast.py breaks these and forces the search. *)
 Theorem C06_grammar_pin : GenGrammar.rules = Parser.modelled_rules.
 Proof. vm_compute. reflexivity. Qed.
 Print Assumptions C06_grammar_pin.
@@ -19,3 +33,67 @@ Proof. vm_compute. reflexivity. Qed.
 
 Theorem C06_int_limit_pin : GenGrammar.int_max_str_digits = Parser.int_max_str_digits.
 Proof. vm_compute. reflexivity. Qed.
+
+(** ** Lexical round trips (unbounded) *)
+
+(** Any string [x], either quote character, every character raw or escaped as the spelling vector [ms]
+    says, followed by anything: the string segment scanner returns exactly [x], the offset of the opening
+    quote, and the rest of the input. *)
+Theorem C06_quoted_roundtrip : forall q ms x rest0 o b fuel braces,
+  (q = 34 \/ q = 39) ->
+  p_segment fuel braces (mkSt (print_quoted q ms x ++ rest0) o b) =
+  Got ([PStr x], o) (mkSt rest0 (o + len (print_quoted q ms x)) b).
+Proof. exact quoted_roundtrip. Qed.
+Print Assumptions C06_quoted_roundtrip.
+
+Example C06_quoted_roundtrip_ex :
+  print_quoted 39 [MRaw; MEscLetter; MEscSelf; MEscSelf] [97; 10; 39; 92] = [39; 97; 92; 110; 92; 39; 92; 92; 39].
+Proof. vm_compute. reflexivity. Qed.
+
+(** Any permitted sequence of text parts and numbers inside one brace group is read back as exactly those
+    parts ([items bs] bounds the fuel the scanner needs). *)
+Theorem C06_braced_roundtrip : forall (bs : list bpart) f (rest0 : str),
+  bparts_ok bs = true ->
+  br_body (items bs + S f) (print_bparts bs ++ 125 :: rest0) =
+  Some (Some (map bpart_val bs, None, len (print_bparts bs) + 1, rest0)).
+Proof. exact braced_body_roundtrip. Qed.
+Print Assumptions C06_braced_roundtrip.
+
+Example C06_braced_roundtrip_ex :
+  let bs := [BStr [120; 32; 49] [MRaw]; BNum (NTMixed 0 1 [32] 0 1 [] [9] 1 2); BStr [46; 125] [MEscSelf]] in
+  bparts_ok bs = true /\ print_bparts bs = [120; 32; 92; 49; 49; 32; 49; 47; 9; 48; 50; 92; 46; 92; 125].
+Proof. vm_compute. split; reflexivity. Qed.
+
+(** Every literal layout is read back as exactly the value it denotes and consumes exactly its own text:
+    integers below 2^53 with any number of leading zeros; decimals (the value is the correctly rounded
+    binary64 of the exact decimal: [float_of_text]); fractions "n/ d" and mixed fractions "i n / d" with
+    arbitrary horizontal space at the places the grammar allows and leading zeros in every part
+    (value = the reduced fraction, exactly). *)
+Theorem C06_number_roundtrip : forall t (r : str), ntext_ok t = true -> num_follow t r ->
+  sc_number (ntext_str t ++ r) = Some ((ntext_val t, None), len (ntext_str t), r).
+Proof. exact number_roundtrip. Qed.
+Print Assumptions C06_number_roundtrip.
+
+Example C06_number_roundtrip_ex :
+  ntext_ok (NTMixed 1 2 [32; 9] 0 6 [32] [] 2 4) = true /\
+  ntext_str (NTMixed 1 2 [32; 9] 0 6 [32] [] 2 4) = [48; 50; 32; 9; 54; 32; 47; 48; 48; 52] /\
+  ntext_val (NTMixed 1 2 [32; 9] 0 6 [32] [] 2 4) = NFrac 7 2 /\
+  num_follow (NTMixed 1 2 [32; 9] 0 6 [32] [] 2 4) [32; 120].
+Proof. vm_compute. repeat split; reflexivity. Qed.
+
+(** Whitespace at optional positions is insignificant: whatever horizontal run (resp. whitespace run) is
+    written, the scanners [hsp?] / [sp?] leave the same input; after a statement, trailing spaces, the line
+    break (LF or CR), blank lines and the next line's indentation are skipped whatever they are.  (That the
+    VALUE of a fraction does not depend on the spacing inside it is part of [C06_number_roundtrip].) *)
+Theorem C06_ws_insignificant :
+  (forall w1 w2 r o1 o2 b, forallb is_hsp w1 = true -> forallb is_hsp w2 = true -> stops is_hsp r ->
+     rest (snd (skip_hsp (mkSt (w1 ++ r) o1 b))) = rest (snd (skip_hsp (mkSt (w2 ++ r) o2 b)))) /\
+  (forall w1 w2 r o1 o2 b, forallb is_ws w1 = true -> forallb is_ws w2 = true -> stops is_ws r ->
+     rest (skip_sp (mkSt (w1 ++ r) o1 b)) = rest (skip_sp (mkSt (w2 ++ r) o2 b))) /\
+  (forall w c ws r, forallb is_hsp w = true -> c = 10 \/ c = 13 -> forallb is_ws ws = true -> stops is_ws r ->
+     sc_eol (w ++ c :: ws ++ r) = Some (w ++ c :: ws, r)) /\
+  (forall w, forallb is_hsp w = true -> sc_eol w = Some (w, [])).
+Proof.
+  exact (conj hsp_insignificant (conj sp_insignificant (conj sc_eol_break sc_eol_end))).
+Qed.
+Print Assumptions C06_ws_insignificant.
